@@ -1,4 +1,5 @@
 import Driver.Frame
+import Driver.OutCap
 import KrakenModel.Model.Rendezvous
 /- Driver for C22: replays lib/hrw.RendezvousHash transcripts.
 
@@ -69,8 +70,6 @@ def step (s : St) (kind : String) (args impl : List String) : Option (St × Step
     some (s, { obs := [nodesTok s.m.nodes], branch := "nodes" })
   | "tbl", key :: entries => do
     let es ← entries.mapM entry?
-    -- the row must cover exactly the current nodes, in slice order
-    let cover := es.map (·.1) == s.m.nodes
     let mut seen := s.seenScore
     let mut pf : List String := []
     for (n, sc) in es do
@@ -78,15 +77,22 @@ def step (s : St) (kind : String) (args impl : List String) : Option (St × Step
       match seen[k]? with
       | some old => if old ≠ sc then pf := s!"side=impl key=score-unstable Score({key}) of {nodeTok n} changed" :: pf
       | none => seen := seen.insert k sc
-    if !cover then pf := s!"side=impl key=nodes-mismatch tbl row lists {nodesTok (es.map (·.1))}, API history implies {nodesTok s.m.nodes}" :: pf
+    -- membership implied by the API history is unambiguous when labels are distinct: then the
+    -- implementation's node set must be exactly it (a removal removes only that node, an addition only adds)
+    let labelsDistinct := (s.m.nodes.map (·.label)).eraseDups.length == s.m.nodes.length
+    if labelsDistinct && !(subMultiset (es.map (·.1)) s.m.nodes && es.length == s.m.nodes.length) then
+      pf := s!"side=impl key=membership-mismatch rh.Nodes is {nodesTok (es.map (·.1))}, the AddNode/RemoveNode history implies {nodesTok s.m.nodes}" :: pf
     pure ({ s with curKey := key, cur := es, seenScore := seen }, { branch := "tbl", propfails := pf })
   | "op", ["get", key, nt] => do
     let n ← nt.toInt?
     if key ≠ s.curKey then none else
     let nodes := s.m.nodes
     let len := nodes.length
-    -- every node needs a score row
-    if nodes.any (fun x => (lookup s.cur x).isNone) then none else
+    -- the implementation's own listing of its nodes (the tbl row) is the reference for the monitors
+    let inodes := s.cur.map (·.1)
+    -- a model node without a score row: model and implementation disagree on the membership
+    if nodes.any (fun x => (lookup s.cur x).isNone) then
+      some (s, { obs := ["ok", "?model-nodes=" ++ nodesTok nodes], branch := "get.membership-differs" }) else
     let hasNaN := nodes.any (fun x => lookup s.cur x == some none)
     let sc := scoreOf s.cur
     let tie := !hasNaN && hasTie sc nodes
@@ -103,11 +109,12 @@ def step (s : St) (kind : String) (args impl : List String) : Option (St × Step
       let (obs, branch, pf, s') := match implOut with
         | none => (["ok", nodesTok mo], "get.noimpl", ([] : List String), s)
         | some o =>
-          let isPermPrefix := o.length == min k len && subMultiset o nodes
-          let pfPerm := if !isPermPrefix then [s!"side=impl key=not-permutation GetOrderedNodes({key},{n}) returned {nodesTok o} for nodes {nodesTok nodes}"] else []
+          let ki := if n ≥ (inodes.length : Int) then inodes.length else n.toNat
+          let isPermPrefix := o.length == ki && subMultiset o inodes
+          let pfPerm := if !isPermPrefix then [s!"side=impl key=not-permutation GetOrderedNodes({key},{n}) returned {nodesTok o} for nodes {nodesTok inodes}"] else []
           let sorted := hasNaN || decide (SortedDesc sc o)
           let pfSorted := if !sorted then [s!"side=impl key=not-sorted GetOrderedNodes({key},{n}) returned {nodesTok o}, not descending by Score"] else []
-          let adm := hasNaN || admissible sc nodes k o
+          let adm := hasNaN || admissible sc inodes ki o
           let pfTop := if isPermPrefix && sorted && !adm then [s!"side=impl key=not-top GetOrderedNodes({key},{n}) returned {nodesTok o}, a higher scoring node was left out"] else []
           let pfTie := if inDom && tie then [s!"side=impl key=score-tie two of {nodesTok nodes} have the same Score({key}): order depends on insertion order"] else []
           -- relative order against earlier outputs of the implementation for the same key
@@ -139,4 +146,4 @@ def machine : Machine := { σ := St, name := "hrw", init := fun _ => some {}, st
 
 end C22
 
-def main (args : List String) : IO UInt32 := runMachines [C22.machine] args
+def main (args : List String) : IO UInt32 := runMachinesCapped [C22.machine] args
